@@ -11,18 +11,34 @@ EXTENDS Integers, Sequences, Json, IOUtils, TLC, TLCExt
 
 Tr == ndJsonDeserialize(IOEnv.TRACE)
 VARIABLES l, pend, pool, ncpu,
-          starts, exits      \* pool threads that began _dispatch_worker_thread / gave their budget unit back at exit
-tvars == <<l, pend, pool, ncpu, starts, exits>>
+          starts, exits,     \* pool threads that began _dispatch_worker_thread / gave their budget unit back at exit
+          owe                \* <<thread, queue>> pairs: the thread published a next item as the queue's head in
+                             \* _dispatch_root_queue_drain_one and has not yet requested a thread for it (Root.tla: DStoreNext -> poke)
+tvars == <<l, pend, pool, ncpu, starts, exits, owe>>
 Rec == Tr[l]
-TInit == l = 2 /\ pend = 0 /\ pool = 0 /\ ncpu = 0 /\ starts = 0 /\ exits = 0 /\ TLCSet(1, 0)
+TInit == l = 2 /\ pend = 0 /\ pool = 0 /\ ncpu = 0 /\ starts = 0 /\ exits = 0 /\ owe = {} /\ TLCSet(1, 0)
 Consume == l' = l + 1
 TReset == /\ l <= Len(Tr) /\ Rec.e = "Reset" /\ Consume /\ pend' = Rec.pending /\ pool' = Rec.pool /\ ncpu' = Rec.ncpu
-          /\ starts' = Rec.ncpu - Rec.pool /\ exits' = 0      \* threads alive when recording starts hold the missing budget
+          /\ starts' = Rec.ncpu - Rec.pool /\ exits' = 0 /\ owe' = {}      \* threads alive when recording starts hold the missing budget
 \* after every pool thread had time to hit its park timeout: all have exited and returned their unit
 TIdle == /\ l <= Len(Tr) /\ Rec.e = "IdleQuiesce" /\ Consume
          /\ exits = starts /\ pool = ncpu /\ pend = 0
-         /\ UNCHANGED <<pend, pool, ncpu, starts, exits>>
-TOther == /\ l <= Len(Tr) /\ Rec.e \notin {"Reset", "Rq", "IdleQuiesce"} /\ Consume /\ UNCHANGED <<pend, pool, ncpu, starts, exits>>
+         /\ UNCHANGED <<pend, pool, ncpu, starts, exits, owe>>
+TOther == /\ l <= Len(Tr) /\ Rec.e \notin {"Reset", "Rq", "Rl", "IdleQuiesce"} /\ Consume /\ UNCHANGED <<pend, pool, ncpu, starts, exits, owe>>
+\* item list of a root queue (q = which root queue): the part of the MEDIATOR protocol that keeps the queue served:
+\* after popping an item while another one is (or just became) queued behind it, the worker stores that next item as
+\* the head and MUST poke the queue (_dispatch_root_queue_poke starts with the ordered load of the tail in
+\* _dispatch_queue_class_probe) before it goes off to run the popped item; otherwise nobody requests a thread for it
+\* (its enqueuer saw a non-empty queue) and it is stranded while the only worker is blocked inside the popped item.
+TRl == /\ l <= Len(Tr) /\ Rec.e = "Rl" /\ Consume
+       /\ LET k == <<Rec.t, Rec.q>> IN
+          CASE Rec.f = "_dispatch_root_queue_drain_one" /\ Rec.w = "head" /\ Rec.op = "store" /\ ~Rec.newnull ->
+                 owe' = owe \cup {k}
+            [] Rec.f = "_dispatch_queue_class_probe" -> owe' = owe \ {k}
+            [] Rec.f = "_dispatch_root_queue_drain_one" /\ Rec.w = "head" /\ Rec.op = "xchg" ->
+                 k \notin owe /\ owe' = owe        \* back for the next item: the request must have been made
+            [] OTHER -> owe' = owe
+       /\ UNCHANGED <<pend, pool, ncpu, starts, exits>>
 MAXTIDS == 255
 Cur == IF Rec.w = "pending" THEN pend ELSE pool
 Legal ==
@@ -43,7 +59,8 @@ TRq == /\ l <= Len(Tr) /\ Rec.e = "Rq" /\ Consume
        /\ ncpu' = ncpu
        /\ starts' = IF Rec.f = "_dispatch_worker_thread" /\ Rec.w = "pending" /\ Rec.op = "sub" THEN starts + 1 ELSE starts
        /\ exits' = IF Rec.f = "_dispatch_worker_thread" /\ Rec.w = "pool" /\ Rec.op = "add" THEN exits + 1 ELSE exits
-TNext == TReset \/ TOther \/ TIdle \/ TRq
+       /\ owe' = owe
+TNext == TReset \/ TOther \/ TIdle \/ TRq \/ TRl
 TSpec == TInit /\ [][TNext]_tvars
 PoolAccountingOK == pend >= 0 /\ (ncpu > 0 => (pool <= ncpu /\ pool >= ncpu - MAXTIDS))
 MaxL == IF TLCGet(1) < l THEN TLCSet(1, l) ELSE TRUE
